@@ -1,6 +1,7 @@
 import OmplModel.Model.PathOps
 import OmplModel.Model.PathOpsRepair
 import OmplModel.Model.PathOpsWhole
+import OmplModel.Model.PathOpsGeom
 import OmplModel.Model.SpaceDist
 import OmplModel.Model.SpaceInterp
 import OmplModel.Driver.SpaceIO
@@ -16,6 +17,7 @@ Line-protocol driver of the C17 path post-processing model (header `pathops`).
   interp vsc <k> <n>*k
   reduce <ms> <me> <rangeRatio> <k> <raw>*k cm …
   goals <m> <state>*m                -> ok
+  pg reverse | prepend <s> | append <s> | keepafter <s> | keepbefore <s> | closest <s>   -> pg <ret> out …   (PathGeometric, lock-step)
   bsplines <maxSteps> <minChange> iv <m> (<state> <0/1>)*m cm …      (smoothBSpline; iv = the routine's own isValid calls)
   bgoal <obj> <attempts> <rangeRatio> <snap> <k> <u>*k cm …          (findBetterGoal, scripted draws, goals cycle)
   perturbs <obj> <step> <ms> <me> <snap> <kh> <h>*kh <ks> <state>*ks cm …   (perturbPath, scripted draws + scripted sampler)
@@ -137,6 +139,12 @@ def objOf (sp : Space Float) (name : String) : Option (Obj (St Float) Float) :=
   | "checker" => some (mk fun s => let (x, y) := xy s
       if x.isNaN || y.isNaN || x.abs > 1e9 || y.abs > 1e9 then 1.0
       else if (x.floor.toInt64.toInt + y.floor.toInt64.toInt) % 2 != 0 then 9.0 else 1.0)
+  | "work" =>
+    -- MechanicalWork over the height field h = y, path-length weight 0.05: std::max(h(b) - h(a), 0.0) + 0.05 * distance
+    let workMotion (a b : St Float) : Float :=
+      let d := (xy b).2 - (xy a).2
+      (if d < 0.0 then 0.0 else d) + 0.05 * dist sp a b
+    some { identity := 0.0, combine := fun a b => a + b, better := fun a b => a < b, motion := workMotion }
   | _ => none
 
 def step (st : DSt) (ts : List String) : DSt × String :=
@@ -197,7 +205,7 @@ def step (st : DSt) (ts : List String) : DSt × String :=
         | "interp", "vsc" :: k :: ns =>
           match parseNat? k, parseNats? ns with
           | some k, some ns =>
-            if k ≠ ns.length ∨ k + 1 ≠ st.path.length then (st, "bad-op") else
+            if k ≠ ns.length ∨ k ≠ st.path.length - 1 then (st, "bad-op") else
             let tab : Std.HashMap String Nat :=
               ((adj st.path).zip ns).foldl (fun t (p, n) => t.insert (key p.1 ++ "|" ++ key p.2) n) {}
             let vsc (a b : St Float) : Nat := (tab.get? (key a ++ "|" ++ key b)).getD 0
@@ -241,6 +249,24 @@ def step (st : DSt) (ts : List String) : DSt × String :=
             -- the code between the two fixes (checkMotion in sampling order)
             (st, showOrd ++ " | old " ++ show1 false ++ " | sampling " ++ show1 true)
           | _, _, _, _, _, _ => (st, "bad-op")
+        | "pg", meth :: r =>
+          -- PathGeometric::reverse / prepend / append / keepAfter / keepBefore / getClosestIndex in lock-step
+          let flt : Float → Float → Bool := fun a b => a < b
+          let show1 (ret : Int) (l : List (St Float)) : String := "pg " ++ toString ret ++ " " ++ showPath l
+          match meth, r with
+          | "reverse", [] => (st, show1 (-1) st.path.reverse)
+          | _, _ =>
+            match pState sp r with
+            | some (q, []) =>
+              match meth with
+              | "prepend" => (st, show1 (-1) (q :: st.path))
+              | "append" => (st, show1 (-1) (st.path ++ [q]))
+              | "keepafter" => (st, show1 (-1) (keepAfter flt (dist sp) q st.path))
+              | "keepbefore" => (st, show1 (-1) (keepBefore flt (dist sp) q st.path))
+              | "closest" =>
+                (st, show1 (match closestIndex flt (dist sp) q st.path with | some i => (i : Int) | none => -1) st.path)
+              | _ => (st, "bad-op")
+            | _ => (st, "bad-op")
         | "goals", n :: r =>
           match (do let n ← parseNat? n; pStates sp n r) with
           | some (gs, []) => ({ st with goals := gs }, "ok")
